@@ -306,3 +306,10 @@ func vAddrSpelling(site string, addr string) string {
 
 // vRepeats: natively Go's map iteration order is random, so order-dependence is observed by repetition
 func vRepeats(n int) int { return n }
+
+// the application's account prefix (the symbolic run decides literal addresses with it); packages
+// without a TestMain would otherwise replay with the SDK default "cosmos"
+func init() {
+	defer func() { _ = recover() }() // a sealed config already carries the application's prefix
+	sdk.GetConfig().SetBech32PrefixForAccount("panacea", "panaceapub")
+}
